@@ -15,13 +15,25 @@ Contracts evaluated (one plain function each, see contract_*):
               (exact integer arithmetic on the decimal digits, no tolerance); blank trailing cells 0
   addressing  table[i], table[row_name[i]] and table[col][i] agree for every row and column
   times       one result index per printed result block
-  skip        for every non-empty subset S of the reader's table names, t2listing(f, skip_tables=S)
-              exposes the tables outside S with the same rows and cells
-  perturb-*   the cells contract on scratch copies in which printed numbers are replaced by
-              same-width numbers (negative, zero, 3-digit exponent, exponent without E, mixtures)
+  skip        for every non-empty subset S of the table names, t2listing(f, skip_tables=S) has the
+              same result times and exposes the tables outside S with the same rows, columns and
+              cells as the reader gives without skipping
+  perturb-*   rows / cells contracts on scratch copies in which the printed numbers of the tables
+              are replaced by other numbers occupying the same field (right edge and decimal
+              point in the same columns): other digits, negative, zero, 3-digit exponent (E+ddd),
+              exponent without its letter (+ddd); on every cell or on a random share of the cells
+  stale-table (by-product of the above) a table that at some result index still holds, cell for
+              cell, what it held at the previously read index although other numbers are printed
 
 usage: c05_tables.py <tier> <seed>          (tier: quick | thorough)
-Each (file, job) runs in its own subprocess (this same script, `--worker`) with a 60 s limit.
+The sub-jobs of a listing file (base / skip subsets / one per variant) run in subprocesses of this
+same script (`--worker`), each with a limit of 60 s CPU time (300 s wall as a backstop); a
+subprocess that exceeds it is a failure `timeout ...`.
+Failure keys: `<category> <file> [skip=<subset>] [table=<name>] [col=<column>]`, categories:
+cell, base-rows, base-colnames, base-ncols, base-times, base-table-missing, base-table-unprinted,
+base-exception, addr-*, dup-row-names, dup-col-names, skip-exception, skip-times,
+skip-table-missing, skip-rows, skip-cell, stale-table, perturb-<kind>[-exception|-rows|...],
+timeout, worker-died.
 """
 import sys, os, json, time, re, random, subprocess, tempfile, shutil, glob, itertools, math
 from collections import Counter, OrderedDict
@@ -118,8 +130,6 @@ def split_run(t):
             return None
         frac, emark, esign, edig, nsign, ndig, s2, rest = m.groups()
         if emark:
-            if s2 or not rest and False:
-                pass
             if s2:                       # exponent delimited by the sign of the next numeral
                 end = p + 1 + m.start(7)
             else:                        # exponent digits and the next integer part run together
@@ -194,11 +204,7 @@ class OTable(object):
         # integer-valued columns printed between INDEX and the first real column: header words
         # after INDEX that end left of the first real number of every row
         k = 0
-        h = self.header_line
-        pos = 0
-        words = []
-        for mm in re.finditer(r'\S+', h):
-            words.append((mm.group(), mm.start(), mm.end()))
+        words = [(mm.group(), mm.start(), mm.end()) for mm in re.finditer(r'\S+', self.header_line)]
         ixw = [i for i, wd in enumerate(words) if wd[0] in ('INDEX', 'IND.')][0]
         for wd in words[ixw + 1:]:
             if wd[2] <= P:
@@ -315,8 +321,8 @@ class OTable(object):
             last = r['index']
         groups = OrderedDict()
         for r in rows:
-            groups.setdefault(r['index'], []).append(r)
-        self.rows = [groups[i] for i in sorted(groups)]
+            groups.setdefault((r['index'], r['keys']), []).append(r)
+        self.rows = [groups[i] for i in sorted(groups, key=lambda ik: ik[0])]      # stable
         self.rows_all = [[r] for r in sorted(rows, key=lambda r: r['index'])]     # stable
         self.rows_merged = self.rows
         self.kintcols = k
@@ -576,7 +582,6 @@ def make_variant(olist, kind, vseed):
                 done.add(ln)
                 line = lines[ln]
                 newcells, kinds = [], []
-                prev_end = r['vstart'] if not r['cells'] else None
                 for ci, (a, b, tok) in enumerate(r['cells']):
                     if ci < t.kintcols:
                         newcells.append((a, b, tok)); kinds.append('same'); continue
@@ -876,6 +881,91 @@ def run_reader(path, skip, otext_listing, col, ctx, tier, do_addressing, cat):
             pass
 
 
+def baseline_content(path, tier):
+    """What the reader exposes without skipping: {(index, table): (row names, matrix)}."""
+    from t2listing import t2listing
+    try:
+        l0 = t2listing(path)
+    except BaseException:
+        return None
+    out = {'nt': l0.num_fulltimes, 'tables': list(l0._table.keys()), 'content': {}}
+    try:
+        for ti in check_times(l0.num_fulltimes, tier):
+            l0.index = ti
+            for name, t in l0._table.items():
+                out['content'][(ti, name)] = (list(t.row_name), reader_matrix(t).copy(), list(t.column_name))
+    except BaseException:
+        return None
+    finally:
+        l0.close()
+    return out
+
+
+def contract_skip(path, skip, base, col, ctx, tier):
+    """Skipping the tables in `skip` does not change the contents of the others: same result
+    times, the other tables still exposed, same rows, same columns, same cells (as the reader
+    itself gives them without skipping)."""
+    import numpy as np
+    from t2listing import t2listing
+    f = ctx['file']
+    sk = '+'.join(sorted(skip))
+    tag = '%s skip=%s' % (f, sk)
+    inp = {'file': f, 'skip_tables': sorted(skip)}
+    col.evals['open'] += 1
+    try:
+        lst = t2listing(path, skip_tables=list(skip))
+    except BaseException as e:
+        col.add('skip-exception %s' % tag, 't2listing(%r, skip_tables=%r) raises %s: %s' % (f, sorted(skip), type(e).__name__, str(e)[:200]), inp)
+        return
+    try:
+        col.evals['times'] += 1
+        if lst.num_fulltimes != base['nt']:
+            col.add('skip-times %s' % tag, '%d result times with skipping, %d without' % (lst.num_fulltimes, base['nt']), inp)
+        for name in base['tables']:
+            col.evals['table-set'] += 1
+            if name not in skip and name not in lst._table:
+                col.add('skip-table-missing %s table=%s' % (tag, name), 'table %r is exposed without skipping but not with skip_tables=%r (exposed: %r)' %
+                        (name, sorted(skip), list(lst._table.keys())), dict(inp, table=name))
+        for ti in check_times(min(lst.num_fulltimes, base['nt']), tier):
+            try:
+                lst.index = ti
+            except BaseException as e:
+                col.add('skip-exception %s index' % tag, 'set index %d raises %s: %s' % (ti, type(e).__name__, str(e)[:200]), dict(inp, index=ti))
+                continue
+            for name in base['tables']:
+                if name in skip or name not in lst._table or (ti, name) not in base['content']:
+                    continue
+                rn, M0, cn = base['content'][(ti, name)]
+                t = lst._table[name]
+                col.distinct.add((tag, name, ti))
+                col.evals['skip-rows'] += len(rn)
+                if list(t.row_name) != rn or list(t.column_name) != cn:
+                    col.add('skip-rows %s table=%s' % (tag, name), 'result index %d: %d rows / %d columns with skipping, %d / %d without (or other names)' %
+                            (ti, t.num_rows, t.num_columns, len(rn), len(cn)), dict(inp, table=name, index=ti))
+                    continue
+                try:
+                    M = reader_matrix(t)
+                except BaseException as e:
+                    col.add('skip-exception %s table=%s cells' % (tag, name), 'reading the cells raises %s: %s' % (type(e).__name__, str(e)[:200]),
+                            dict(inp, table=name, index=ti))
+                    continue
+                col.cells = getattr(col, 'cells', 0) + M.size
+                if M.shape != M0.shape or not np.array_equal(M, M0, equal_nan=True):
+                    d = ''
+                    if M.shape == M0.shape:
+                        bad = np.argwhere(~((M == M0) | (np.isnan(M) & np.isnan(M0))))
+                        i, j = int(bad[0][0]), int(bad[0][1])
+                        d = '%d cells differ, e.g. row %d %r column %r: %r with skipping, %r without' % (len(bad), i, rn[i], cn[j], float(M[i, j]), float(M0[i, j]))
+                    col.add('skip-cell %s table=%s' % (tag, name), 'result index %d: %s' % (ti, d), dict(inp, table=name, index=ti))
+    except Exception as e:
+        col.add('skip-exception %s contracts' % tag, 'evaluating the contract raises %s: %s' % (type(e).__name__, str(e)[:200]), inp)
+    finally:
+        try:
+            lst.close()
+        except Exception:
+            pass
+
+
 def worker(job):
     """Runs the sub-jobs of one listing file in this process and prints the collected result."""
     import warnings
@@ -909,12 +999,20 @@ def do_job(job, col):
             l0.close()
         except BaseException as e:
             names = list(o.blocks[0].tables.keys()) if o.blocks else []
+        for b in o.blocks:                      # tables that are printed only at later result times
+            for nm in b.tables:
+                if nm not in names and len(names) < 6:
+                    names.append(nm)
         subsets = []
         for k in range(1, len(names) + 1):
             for s in itertools.combinations(names, k):
                 subsets.append(s)
+        base = baseline_content(path, tier)
         for s in subsets[:64]:
-            run_reader(path, s, o, col, ctx, tier, False, 'skip')
+            if base is None:        # the reader cannot open the file unskipped: fall back on the printed text
+                run_reader(path, s, o, col, ctx, tier, False, 'skip')
+            else:
+                contract_skip(path, s, base, col, ctx, tier)
     elif job['kind'] == 'variant':
         ctx.update({'variant': job['variant'], 'vseed': job['vseed']})
         newtext = make_variant(o, job['variant'], job['vseed'])
